@@ -69,7 +69,9 @@ func c28Setup(t *testing.T, b *world.Backend) (*world.Snap, error) {
 func reportWorkloads(ctx context.Context, inst *world.Instance, b *world.Backend) {
 	for id, w := range b.View(false).Workloads {
 		app, entry, _, _ := parseName(w.Name)
-		_ = inst.Store.SetWorkloadStatus(ctx, &coretypes.StatusMeta{ID: id, Running: true, Healthy: true, Appname: app, Entrypoint: entry, Nodename: w.Node}, 0)
+		// the pre-existing workload of n1 is running but its health check has not passed: it still has to be reported down
+		healthy := w.Node != "n1"
+		_ = inst.Store.SetWorkloadStatus(ctx, &coretypes.StatusMeta{ID: id, Running: true, Healthy: healthy, Appname: app, Entrypoint: entry, Nodename: w.Node}, 0)
 	}
 }
 
@@ -166,7 +168,7 @@ func c28Explore(t *testing.T, c *vcore.Ctx) {
 	if dir == "" {
 		dir = t.TempDir()
 	}
-	c.SetRule("agent (heartbeats n1,n2 TTL 10 s + workload statuses, then n1 lapses by expiry or deletion while n2 keeps reporting; optionally n1's heartbeat resumes right after the lapse and stays), optional creator (a workload on n1 before the lapse), real NodeStatusWatcher started before or after the lapse; all interleavings of their backend requests within the preemption bound; oracle 60 s after the lapse; non-trivial = schedules with at least one preemption")
+	c.SetRule("agent (heartbeats n1,n2 TTL 10 s + workload statuses - running and healthy, on n1 running but not healthy -, then n1 lapses by expiry or deletion while n2 keeps reporting; optionally n1's heartbeat resumes right after the lapse and stays), optional creator (a workload on n1 before the lapse), real NodeStatusWatcher started before or after the lapse; all interleavings of their backend requests within the preemption bound; oracle 60 s after the lapse; non-trivial = schedules with at least one preemption")
 	c.Assume("etcd = memetcd: the status key disappears exactly at lease expiry and the watch delivers the delete event; the active-watcher registration uses the real StartEphemeral")
 	b := world.NewBackend(dir, false)
 	defer b.Close()
